@@ -30,6 +30,7 @@ type fault struct {
 	Kind    string `json:"kind"`                 // close | rst | down | midline
 	Down    int    `json:"down_handovers"`       // judged messages handed over while the sink is unreachable
 	PauseMs int    `json:"pause_ms,omitempty"`   // stall only: the sink sleeps this long and reads on instead of resetting
+	IdleMs  int    `json:"idle_ms,omitempty"`    // nothing is handed over for this long before the fault: a producer that has been up for a while
 }
 
 type scenario struct {
@@ -363,7 +364,7 @@ func genMsg(g *mon.RNG, scn, k int, content string, maxLen int) []byte {
 
 type result struct {
 	Stalls, StallsThatBlockedAWrite int
-	Pauses                          int
+	Pauses, IdlePeriods             int
 	Kind, What                      string
 	Inconcl                         string
 	Handed                          int
@@ -472,6 +473,11 @@ func runScenario(sc scenario, dir string) (res result, wit witness) {
 			if !s.waitFor(sc.ID, bk, 20*time.Second) {
 				res.Kind, res.What = "no-resumption", fmt.Sprintf("the barrier message handed over after judged message %d never reached the sink although the sink had been reachable for at least %d judged messages", j, j-healthyFrom)
 				goto verdict
+			}
+			if f.IdleMs > 0 {
+				// a quiet period on a healthy connection; the fault comes to a producer that is no longer young
+				time.Sleep(time.Duration(f.IdleMs) * time.Millisecond)
+				res.IdlePeriods++
 			}
 			switch f.Kind {
 			case "close":
@@ -756,6 +762,12 @@ func scenarios(seed int64, thorough bool) []scenario {
 	for _, r := range []int{0, 2} {
 		add(scenario{Proto: "tcp", Retry: r, N: 5 + 25, Content: "plain", Faults: []fault{{After: 5, Kind: "stall", PauseMs: 6500}}})
 	}
+	// faults that meet a producer which has been running for a while (longer than the usual 5/10 s connect,
+	// keep-alive and idle time-outs): a quiet quarter of a minute, then the sink closes / goes away and comes back
+	for _, kind := range []string{"close", "rst", "down"} {
+		add(scenario{Proto: "tcp", Retry: 2, N: 5 + 25 + 3, Content: "plain", Faults: []fault{{After: 5, Kind: kind, Down: 3, IdleMs: 12500}}})
+	}
+	add(scenario{Proto: "udp", Retry: 2, N: 5 + 25 + 3, Content: "plain", Faults: []fault{{After: 5, Kind: "down", Down: 3, IdleMs: 12500}}})
 	for _, proto := range []string{"tcp", "udp"} {
 		for _, at := range pos {
 			for _, r := range retries {
@@ -820,7 +832,7 @@ func main() {
 	}
 	scs := scenarios(run.Seed, run.Thorough())
 	var msgs, faults, lost, delivered, stalls, stallsBlocked int64
-	var maxGap int64
+	var maxGap, idles int64
 	var mu sync.Mutex
 	kinds := map[string]int{}
 	sem := make(chan struct{}, 24)
@@ -837,6 +849,7 @@ func main() {
 			atomic.AddInt64(&faults, int64(len(sc.Faults)))
 			atomic.AddInt64(&lost, int64(r.Lost))
 			atomic.AddInt64(&stalls, int64(r.Stalls))
+			atomic.AddInt64(&idles, int64(r.IdlePeriods))
 			atomic.AddInt64(&stallsBlocked, int64(r.StallsThatBlockedAWrite))
 			atomic.AddInt64(&delivered, int64(r.Delivered))
 			mu.Lock()
@@ -882,9 +895,10 @@ func main() {
 	run.Set("faults_injected", faults)
 	run.Set("faults_by_kind", kinds)
 	run.Set("stalls_injected", stalls)
+	run.Set("faults_met_by_a_producer_older_than_12_s", idles)
 	run.Set("stalls_in_which_a_producer_write_blocked_mid_message", stallsBlocked)
 	run.Set("backends_not_reached", []string{"kafka (sarama)", "kafka (segmentio)", "nsq: need brokers that do not exist in this sandbox"})
-	run.SetRule("real producer.NewProducer('rawSocket') + config file + Run() against an in-process sink. Fault enumeration: {graceful close, RST, mid-line reset, stall (sink stops reading until a producer write blocks mid-message, then RST), pause (the same, but the sink sleeps 6.5 s and then reads on over the same connection), listener+connection down} × fault position {before first, after message 1,2,5,17} × downtime {0,1,5,50 hand-overs} × retry-max {0,1,2,5}, tcp and udp (also configured as tcp4 / udp4), plus seeded sequences of 2-5 faults; contents with every % verb, %%, trailing %, binary octets, up to 256 KiB, and a fault-free ladder of exact lengths (2^k and neighbours, doublings). Oracle over the sink's byte streams (connections in accept order): every complete line is byte-identical to a handed-over message plus newline, no duplicates, no inversions, every message handed over while the sink had been reachable for more than 4 messages is present, delivery resumes after every fault. distinct = scenario descriptor")
+	run.SetRule("real producer.NewProducer('rawSocket') + config file + Run() against an in-process sink. Fault enumeration: {graceful close, RST, mid-line reset, stall (sink stops reading until a producer write blocks mid-message, then RST), pause (the same, but the sink sleeps 6.5 s and then reads on over the same connection), listener+connection down} × fault position {before first, after message 1,2,5,17} × downtime {0,1,5,50 hand-overs} × retry-max {0,1,2,5}, tcp and udp (also configured as tcp4 / udp4), plus close / RST / down after a quiet 12.5 s (a producer that is no longer young), plus seeded sequences of 2-5 faults; contents with every % verb, %%, trailing %, binary octets, up to 256 KiB, and a fault-free ladder of exact lengths (2^k and neighbours, doublings). Oracle over the sink's byte streams (connections in accept order): every complete line is byte-identical to a handed-over message plus newline, no duplicates, no inversions, every message handed over while the sink had been reachable for more than 4 messages is present, delivery resumes after every fault. distinct = scenario descriptor")
 	run.Assume("bounded gap = at most 4 judged messages after the sink is reachable again (derivation in DESIGN.md C14)")
 	run.Assume("loopback TCP delivers what the kernel accepted within 20 s (watchdog for 'never arrived')")
 	run.Finish()
